@@ -71,7 +71,20 @@ const noPool = "pool-value-missing"
 // evalOp performs one operation and renders its observable outcome as text.
 // Error message text is deliberately not part of the outcome, only error-ness.
 // A panic of the code under test is an outcome too ("panic").
-func evalOp(op *Op, ecos []Eco, vw view) (res string) {
+func evalOp(op *Op, ecos []Eco, vw view) string {
+	res := evalOnce(op, ecos, vw)
+	// a repeated operation must give the same outcome every time (counters with
+	// thresholds, adaptive fast paths armed after N identical calls)
+	for i := 1; i < op.N; i++ {
+		simrt.ResetOpSteps() // the step budget is per single operation
+		if r := evalOnce(op, ecos, vw); r != res {
+			return res + "|repeat " + strconv.Itoa(i) + " gave " + r
+		}
+	}
+	return res
+}
+
+func evalOnce(op *Op, ecos []Eco, vw view) (res string) {
 	defer func() {
 		if r := recover(); r != nil {
 			if simrt.IsAbort(r) {
